@@ -147,13 +147,22 @@ def fstRootNode (state : String) : Option (Option (Bool ⊕ Ents)) :=
 def siblingDir : Ents :=
   mkDir [(bs "plain.txt", Sum.inl false), (bs "secret", Sum.inl true), (bs "sub", Sum.inr Ents.nil)]
 
+/-- The name with the letter case of its first ASCII letter flipped (`root` ↦ `Root`): the sandbox holds a sibling of
+this name next to the root (sandbox.go `caseVariant`). -/
+def caseVariant : Path → Path
+  | [] => []
+  | c :: cs =>
+    if 97 ≤ c.toNat ∧ c.toNat ≤ 122 then (c - 32) :: cs
+    else if 65 ≤ c.toNat ∧ c.toNat ≤ 90 then (c + 32) :: cs
+    else c :: caseVariant cs
+
 /-- The directory at one level of the ancestor chain (`first`: the sandbox top). -/
 def sandboxLevel (rootNode : Option (Bool ⊕ Ents)) (extraTop : List Item) (first : Bool) : List Path → Ents
   | [] => Ents.nil
   | [name] =>
     mkDir ((if first then extraTop else []) ++ [(if first then bs "top.txt" else bs "note.txt", Sum.inl false),
       (name ++ bs "-other", Sum.inr siblingDir), (name ++ bs "x", Sum.inr siblingDir), (bs "other", Sum.inr siblingDir),
-      (name ++ bs "-old", Sum.inr (mkDir [(bs "secret", Sum.inl true)]))] ++
+      (caseVariant name, Sum.inr siblingDir), (name ++ bs "-old", Sum.inr (mkDir [(bs "secret", Sum.inl true)]))] ++
       (match rootNode with | some n => [(name, n)] | none => []))
   | seg :: rest =>
     mkDir ((if first then extraTop else []) ++
